@@ -58,7 +58,7 @@ def strip(tr, prop):
     sel = FIELDS[prop]
     evs = []
     for ev in tr["events"]:
-        keep = sel.get(ev["e"], ("e",))
+        keep = ("e", "j", "tok") if ev["e"] == "reconf" else sel.get(ev["e"], ("e",))
         if keep is None:
             continue
         evs.append({k: ev[k] for k in keep if k in ev})
@@ -160,7 +160,8 @@ def replay(ctx, payload):
     m = case["meta"]
     tr = obs.record_observation(case["ocfg"], variant=m.get("variant", 0), scheduler=m.get("scheduler"),
                                 workers=m.get("workers"), exc=m.get("exc", "ValueError"),
-                                delay=m.get("delay", 0.0), force=m.get("force"))
+                                delay=m.get("delay", 0.0), force=m.get("force"), repeat=m.get("repeat", 1),
+                                reconf=m.get("reconf"))
     print(json.dumps(tr["events"], indent=0)[:3000])
     validate(ctx, [tr], "replay")
     return ctx.finish()
